@@ -346,7 +346,9 @@ def foreign_side(ctx, blobs):
                            'clause': 'C02.indep-signer', 'label': '%s whole foreign key cannot be loaded completely' % kind, 'accepted': True, 'result': 'raised'})
                 continue
         hashes = ['sha256', 'sha512', 'sha384', 'sha224', 'sha1', 'md5'] + (['ripemd160'] if 'ripemd160' in build.HASH_CLS else [])
-        variants = [dict(), dict(issuer_in='hashed'), dict(fmt='old'), dict(form=5), dict(pad_mpi=1), dict(created=None, extra=[build.subpacket(2, struct.pack('>I', 1262309999), form=5)]),
+        # the issuer named by its fingerprint only (no 8-octet key id subpacket), hashed - as newer implementations write version 4 signatures
+        fpr_only = dict(issuer_in='none', extra=[build.subpacket(33, b'\x04' + fk.fingerprint)])
+        variants = [dict(), dict(issuer_in='hashed'), fpr_only, dict(fmt='old'), dict(form=5), dict(pad_mpi=1), dict(created=None, extra=[build.subpacket(2, struct.pack('>I', 1262309999), form=5)]),
                     dict(extra=[build.subpacket(100, b'unknown-but-legal'), build.subpacket(27, b'\x43'), build.subpacket(20, bytes([0x80, 0, 0, 0]) + struct.pack('>HH', 3, 2) + b'n@xvv', form=5)])]
         docs = [b'', b'foreign document \xff\x00', b'x' * 70000 if not ctx.quick else b'x' * 3000]
         t = [fk.created + 100]
